@@ -404,6 +404,21 @@ func runC03(c *runCfg) error {
 			}
 			cs = flatCase(i, "copy_bodies", bcfg, raw, nil)
 		}
+		if i%10 == 9 {
+			// while the session skips to the next Sync (a failed Bind / Parse / Execute before it), a message above the
+			// limit is still consumed in exactly its declared length: its body — which spells Sync, Query, Parse messages —
+			// is never interpreted
+			cfg := cs.cfg
+			L := cfg.limit
+			if L <= 0 {
+				L = 1 << 24
+			}
+			smuggled := cat(mSync(), mQuery(g.queryName(&cfg)), mParse(nil, g.queryName(&cfg), 0), mSync())
+			body := append(append([]byte{}, smuggled...), make([]byte, L+1+(i/10)%7)...)
+			fail := [][]byte{mBind(nil, []byte("no such statement"), nil, nil, nil), mExecute([]byte("no such portal"), 0), mParse(nil, []byte("unknown query"), 0)}[(i/10)%3]
+			raw := cat(stdStartup, fail, msg(byte("QBPEDz"[(i/30)%6]), body), mFlush(), mSync(), mQuery(g.queryName(&cfg)))
+			cs = flatCase(i, "oversize_while_discarding", cfg, raw, nil)
+		}
 		if i%10 == 7 {
 			// a declared length at the edges of the 32-bit range (above every limit): exactly that many bytes belong to
 			// the message — here: everything the client still sends — and none of them is ever interpreted
